@@ -1,6 +1,7 @@
 package props
 
 import (
+	"github.com/protobom/protobom/pkg/native/serializers"
 	"bytes"
 	"fmt"
 	"math/rand"
@@ -59,6 +60,20 @@ type rModel struct {
 
 var c18Formats = []formats.Format{formats.SPDX23JSON, formats.CDX14JSON, formats.CDX15JSON, formats.CDX13JSON}
 var c18Keys = []string{"driver-a", "driver-b"}
+
+// the keys under which the built-in drivers look their own options up (the driver's type name), and values of the
+// option types they declare
+var c18RealKeys = []string{"*serializers.SPDX23", "*serializers.CDX", "*unserializers.SPDX23", "*unserializers.CDX"}
+var c18AllKeys = append(append([]string{}, c18Keys...), c18RealKeys...)
+
+func c18RealDriverOption(r *rand.Rand, writerSide bool) (string, any) {
+	k := c18RealKeys[r.Intn(2)]
+	if !writerSide {
+		k = c18RealKeys[2+r.Intn(2)]
+	}
+	vals := []any{serializers.SPDX3Options{Indent: 2}, &serializers.SPDX3Options{Indent: 7}, serializers.SPDX3Options{Indent: 0}, serializers.SPDX3Options{Indent: 1}, 5, "text"}
+	return k, vals[r.Intn(len(vals))]
+}
 
 func c18Doc() *sbom.Document {
 	d := sbom.NewDocument()
@@ -255,7 +270,7 @@ func c18CheckWriter(c *core.C, m *wModel, trace []string, spdxSample []byte) boo
 	if o.StoreOptions == nil || o.StoreOptions.NoClobber != wantNC || (m.store != nil && o.StoreOptions != m.store) {
 		return fail("writer-store-options-leak", "StoreOptions is %+v, its own configuration says NoClobber=%v", o.StoreOptions, wantNC)
 	}
-	for _, k := range c18Keys {
+	for _, k := range c18AllKeys {
 		got := o.GetFormatOptions(k)
 		want, has := m.fmtOpts[k]
 		if (has && got != want) || (!has && got != nil) {
@@ -317,7 +332,7 @@ func c18CheckReader(c *core.C, m *rModel, trace []string, spdxSample []byte) boo
 	if (m.retr == nil && o.RetrieveOptions != nil) || (m.retr != nil && o.RetrieveOptions != m.retr) {
 		return fail("reader-retrieve-options-leak", "RetrieveOptions is %+v, its own configuration says %+v", o.RetrieveOptions, m.retr)
 	}
-	for _, k := range c18Keys {
+	for _, k := range c18AllKeys {
 		got := o.GetFormatOptions(k)
 		want, has := m.fmtOpts[k]
 		if (has && got != want) || (!has && got != nil) {
@@ -449,7 +464,12 @@ func c18Case(c *core.C) {
 				m.w.Options.Format = m.format
 				trace = append(trace, fmt.Sprintf("%s.Options.Format=%s", m.name, m.format))
 			case 1:
-				k, v := gen.Pick(r, c18Keys), fmt.Sprintf("%s-direct-%d", m.name, s)
+				var k string
+				var v any
+				k, v = gen.Pick(r, c18Keys), fmt.Sprintf("%s-direct-%d", m.name, s)
+				if r.Intn(3) == 0 {
+					k, v = c18RealDriverOption(r, true)
+				}
 				m.fmtOpts[k] = v
 				m.w.Options.SetFormatOptions(k, v)
 				trace = append(trace, fmt.Sprintf("%s.Options.SetFormatOptions(%s)", m.name, k))
@@ -495,6 +515,12 @@ func c18Case(c *core.C) {
 			if r.Intn(2) == 0 {
 				// per-call driver options: for this call only
 				callOpts.SetFormatOptions(gen.Pick(r, c18Keys), fmt.Sprintf("per-call-%d", s))
+				if r.Intn(2) == 0 {
+					// options addressed to the built-in driver itself, of the option type it declares
+					k, v := c18RealDriverOption(r, true)
+					callOpts.SetFormatOptions(k, v)
+					c.Cover("per-call-write-with-options-addressed-to-the-built-in-driver")
+				}
 				c.Cover("per-call-write-with-driver-options")
 			}
 			if r.Intn(3) == 0 {
